@@ -199,7 +199,7 @@ PROPS = {
     "C34": {
         "lean": ["IbcVerif.Props.C34"],
         "engines": [{"bin": "xfer", "model": "xfer", "model_exe": "xfermodel", "groups": ["denom"],
-                     "n": (400, 6000), "monitor": (1500, 30000), "workers": 8}],
+                     "n": (400, 6000), "monitor": (1500, 30000), "workers": 8, "timeout": 7000}],
         "rule": "denom: per iteration one generated path string (1-7 '/'-separated segments drawn from identifier-like pools: channel-N with 64-bit boundary / leading-zero / 21-digit suffixes, <type>-N client ids incl. 09-localhost and malformed variants, port names, bases incl. blank/whitespace, random strings over the denomination alphabet; leading/trailing/double '/') is pushed through ExtractDenomFromPath (+Validate, Path, IBCDenom), the four identifier recognisers and the two ICS-24 validators, MsgTransfer coin validation, a constructed Denom (Path/IBCDenom/HasPrefix), GetEscrowAddress, and both rate-limit parsers; every 4th iteration Keeper.OnRecvPacket is run on a scratch chain to observe the coin really moved. A case is non-trivial when the implementation did not answer with an error class; distinct = distinct canonical request",
         "trusted": ["Go strings are modelled as List Char; generators keep them ASCII (bytes = characters); strings.TrimSpace / regexp \\w / [0-9] re-implemented as recognisers (Model/Denom.lean) and tied to the code by the correspondence on the alphabet-covering corpus",
                     "SHA-256 is a parameter of every theorem (hashHex / h20); the driver's executable SHA-256 (Model/DenomSha256.lean) is compared with crypto/sha256 through every voucher name and escrow address of the run",
@@ -210,9 +210,9 @@ PROPS = {
     "C42": {
         "lean": ["IbcVerif.Props.C42"],
         "engines": [{"bin": "xfer", "model": "xfer", "model_exe": "xfermodel", "groups": ["denom", "findings"],
-                     "n": (400, 6000), "monitor": (1500, 30000), "workers": 8},
+                     "n": (400, 6000), "monitor": (1500, 30000), "workers": 8, "timeout": 7000},
                     {"bin": "xfer", "model": "xfer", "model_exe": "xfermodel", "groups": ["world", "hoplike"],
-                     "n": (200, 2000), "monitor": (0, 0), "workers": 8}],
+                     "n": (200, 900), "monitor": (0, 0), "workers": 8, "timeout": 7000}],
         "rule": "denom/findings: as C34 plus deterministic replays of the pre-fix witnesses on the real modules (pure calls and a 3-chain history: every look-alike native coin must be rejected by Transfer over v1, alias and v2 paths, the honest voucher must still return); world/hoplike: seeded histories (60-120 ops) on three ibctesting chains with v1 channels, their v2 aliases and direct v2 clients (hoplike: users additionally hold native coins shaped like voucher paths): after every successful MsgTransfer the coin debited from the sender (bank balance diff) is compared with ParseDenomFromSendPacket of the real packet data, after every successful receive the coin credited to the receiver with ParseDenomFromRecvPacket. A case is non-trivial when the op did not fail with an error class; distinct = distinct canonical request",
         "trusted": ["Go strings are modelled as List Char; generators keep them ASCII; the hash is a parameter of every theorem (driver SHA-256 tied through every voucher name of the run)",
                     "the coin ICS-20 moves is *defined* in the stateful model (Model/Ics20.lean sendTransfer / onRecvPacket) through the same two functions the theorems speak about (ics20SendCoinDenom / ics20RecvCoinDenom); that model is tied to relay.go by the world correspondence",
@@ -319,7 +319,7 @@ PROPS = {
     "C32": {
         "lean": ["IbcVerif.Props.C32"],
         "engines": [{"bin": "xfer", "model": "xfer", "model_exe": "xfermodel", "groups": ["world", "hoplike", "findings"],
-                     "n": (260, 2600), "monitor": (0, 0), "workers": 8}],
+                     "n": (260, 900), "monitor": (0, 0), "workers": 8, "timeout": 7000}],
         "rule": "world/hoplike: seeded histories (60-120 ops, then a drain that resolves every packet) on three ibctesting chains with four v1 transfer channels, their v2 aliases and direct v2 clients: MsgTransfer (native / voucher / multi-hop, amounts incl. 0, 1, 2^63, balance+1, the 2^256-1 entire-balance sentinel; receivers incl. blocked module accounts, undecodable strings, escrow addresses, blank; signer/sender mismatches; direct msg-server calls; past / zero / near / far timeouts), raw v2 MsgSendPacket, relay recv / ack / timeout in any order with duplicates, receive / send disabled through params, bank sends incl. into escrow accounts, time jumps; every op's answer carries the canonical delta of all balances, supplies, tracked escrow and stored denominations of the executing chain and is compared with the Lean model; monitors: the refund delta of every timeout / error ack must be the exact inverse of the send delta of that packet, a success ack or a failed / redundant message must change nothing; findings: the pre-fix witnesses as regression cases. A case is non-trivial when the op did not fail with an error class; distinct = distinct canonical request",
         "trusted": ["core IBC (which callback runs when) is abstract in the model; the driver's packet layer and the LifecycleOK hypothesis state what C01/C03/C04/C06 provide; the harness exercises the real core handlers with real proofs",
                     "SDK bank keeper (SendCoins/MintCoins/BurnCoins), address codec, blocked-address list, CacheContext / transaction atomicity are parameters of the model (Config, Bank) and are exercised for real by the harness",
@@ -331,7 +331,7 @@ PROPS = {
     "C49": {
         "lean": ["IbcVerif.Props.C49"],
         "engines": [{"bin": "xfer", "model": "xfer", "model_exe": "xfermodel", "groups": ["world", "hoplike"],
-                     "n": (260, 2600), "monitor": (0, 0), "workers": 8}],
+                     "n": (260, 900), "monitor": (0, 0), "workers": 8, "timeout": 7000}],
         "rule": "as C32 (world/hoplike); monitors: after every successful MsgTransfer / MsgSendPacket the only debited account is the message's sender and that sender signed the transaction; a receive credits only the packet receiver and debits only the destination channel's escrow; a refund credits only the original sender and debits only escrow; relays are signed by random local accounts. A case is non-trivial when the op did not fail with an error class; distinct = distinct canonical request",
         "trusted": ["the SDK delivers a MsgTransfer / MsgSendPacket only when the account named by its signer annotation signed the transaction (ante handler); in the model `step` rejects a transaction whose signer differs from the sender; the harness signs with mismatching keys (sdk/8) to tie this",
                     "authz (MsgExec) grants are not modelled here (C36 covers TransferAuthorization.Accept); packet-forward's override receiver is outside this model (apps cluster)",
@@ -376,7 +376,7 @@ PROPS = {
     "C30": {
         "lean": ["IbcVerif.Props.C30"],
         "engines": [{"bin": "xfer", "model": "xfer", "model_exe": "xfermodel", "groups": ["world", "hoplike", "findings"],
-                     "n": (260, 2600), "monitor": (0, 0), "workers": 8}],
+                     "n": (260, 900), "monitor": (0, 0), "workers": 8, "timeout": 7000}],
         "rule": "world/hoplike: seeded histories (60-120 ops + drain to quiescence) on three ibctesting chains joined by four v1 transfer channels (ids chosen so that the two ends differ), their v2 aliases and three direct v2 client pairs: MsgTransfer native / voucher / multi-hop A->B->C->A with amounts incl. 0, 1, 2^63, balance+1 and the 2^256-1 entire-balance sentinel, raw v2 MsgSendPacket, recv / ack / timeout relays in any order with duplicates and random relayers, receive-side failures (blocked receiver, receive disabled, undecodable receiver), signer/sender mismatches, direct msg-server calls, bank sends incl. into escrow accounts, time jumps; hoplike worlds additionally give users native coins shaped like voucher paths (all rejected by Transfer since 4b2f809). Every op's answer carries the canonical delta (balances of all tracked accounts incl. escrow and module accounts, supplies, tracked total escrow, stored denominations) and is compared with the Lean model; periodic full views; monitors after every successful op on the REAL balances: for every channel-end pair and every denomination path seen, escrow balance on the source (minus amounts the harness itself donated to escrow accounts) = voucher supply on the destination + amounts of the harness's own packet log that are neither minted nor refunded (both directions); supply of every native denomination unchanged; a failed or redundant message changes nothing; findings: the pre-fix conservation witness as a regression case. A case is non-trivial when the op did not fail with an error class; distinct = distinct canonical request",
         "trusted": ["core IBC is abstract in the model: LifecycleOK states what C01/C03/C04/C05/C06/C08 provide (named hypothesis); the harness drives the real core handlers with real proofs and the driver's packet layer mirrors their order of checks",
                     "SDK bank keeper, address codec, blocked-address list, transaction atomicity: parameters of the model (Config, Bank), exercised for real by the harness",
@@ -391,7 +391,7 @@ PROPS = {
     "C31": {
         "lean": ["IbcVerif.Props.C31"],
         "engines": [{"bin": "xfer", "model": "xfer", "model_exe": "xfermodel", "groups": ["world", "hoplike"],
-                     "n": (260, 2600), "monitor": (0, 0), "workers": 8}],
+                     "n": (260, 900), "monitor": (0, 0), "workers": 8, "timeout": 7000}],
         "rule": "world/hoplike: seeded histories (60-120 ops + drain to quiescence) on three ibctesting chains joined by four v1 transfer channels (ids chosen so that the two ends differ), their v2 aliases and three direct v2 client pairs: MsgTransfer native / voucher / multi-hop A->B->C->A with amounts incl. 0, 1, 2^63, balance+1 and the 2^256-1 entire-balance sentinel, raw v2 MsgSendPacket, recv / ack / timeout relays in any order with duplicates and random relayers, receive-side failures (blocked receiver, receive disabled, undecodable receiver), signer/sender mismatches, direct msg-server calls, bank sends incl. into escrow accounts, time jumps; hoplike worlds additionally give users native coins shaped like voucher paths (all rejected by Transfer since 4b2f809). Every op's answer carries the canonical delta (balances of all tracked accounts incl. escrow and module accounts, supplies, tracked total escrow, stored denominations) and is compared with the Lean model; periodic full views; monitor after every successful op on the real state: GetAllTotalEscrowed(d) = sum of the balances of all transfer escrow accounts of the chain in d, minus what the harness itself paid into escrow accounts (bank sends and receives addressed to an escrow address). A case is non-trivial when the op did not fail with an error class; distinct = distinct canonical request",
         "trusted": ["as C30", "packet-forward-middleware's escrow-to-escrow refund moves (WriteAcknowledgementForForwardedPacket) are not modelled here (apps cluster, C43)"],
         "assumptions": ["as C30 (Assm, LifecycleOK, PartiesOK)", "EndsOK: the list of a chain's transfer channel / client identifiers is duplicate-free and covers every identifier that has a counterparty"],
@@ -400,9 +400,9 @@ PROPS = {
     "C33": {
         "lean": ["IbcVerif.Props.C33"],
         "engines": [{"bin": "xfer", "model": "xfer", "model_exe": "xfermodel", "groups": ["denom", "findings"],
-                     "n": (300, 5000), "monitor": (1200, 25000), "workers": 8},
+                     "n": (300, 5000), "monitor": (1200, 25000), "workers": 8, "timeout": 7000},
                     {"bin": "xfer", "model": "xfer", "model_exe": "xfermodel", "groups": ["world", "hoplike"],
-                     "n": (220, 2200), "monitor": (0, 0), "workers": 8}],
+                     "n": (220, 900), "monitor": (0, 0), "workers": 8, "timeout": 7000}],
         "rule": "denom: generated paths / identifiers through ExtractDenomFromPath and, on a scratch chain, the real Keeper.OnRecvPacket (which coin reaches the receiver) — monitor: for hop-free bases the return leg releases the base itself; findings: both pre-fix witnesses must be rejected by Transfer and an honest voucher must still return; world/hoplike: seeded histories (60-120 ops + drain to quiescence) on three ibctesting chains joined by four v1 transfer channels (ids chosen so that the two ends differ), their v2 aliases and three direct v2 client pairs: MsgTransfer native / voucher / multi-hop A->B->C->A with amounts incl. 0, 1, 2^63, balance+1 and the 2^256-1 entire-balance sentinel, raw v2 MsgSendPacket, recv / ack / timeout relays in any order with duplicates and random relayers, receive-side failures (blocked receiver, receive disabled, undecodable receiver), signer/sender mismatches, direct msg-server calls, bank sends incl. into escrow accounts, time jumps; hoplike worlds additionally give users native coins shaped like voucher paths (all rejected by Transfer since 4b2f809). Every op's answer carries the canonical delta (balances of all tracked accounts incl. escrow and module accounts, supplies, tracked total escrow, stored denominations) and is compared with the Lean model; periodic full views; monitors: every voucher a user holds and sends back over the v1 channel it came from must be accepted by Transfer (no denomination error), the return receive must succeed unless the harness itself disabled receiving / chose a blocked or undecodable receiver, and must credit the original coin out of escrow with no supply change. A case is non-trivial when the op did not fail with an error class; distinct = distinct canonical request",
         "trusted": ["as C30; Go strings as List Char (ASCII generators); hash parameter"],
         "assumptions": ["as C30 for return_leg_releases_original (Inv and EscInv hold along every lifecycle-respecting history: C30/C31 theorems)",
